@@ -976,7 +976,7 @@ def _can_del_all(self: fst.FST, field: str, options: Mapping[str, Any]) -> bool:
     if field == 'finalbody':
         return bool(ast.handlers)
 
-    return ast.__class__ is _ExceptHandlers or bool(ast.finalbody)  # field == 'handlers'
+    return ast.__class__ is _ExceptHandlers or bool(ast.finalbody and not ast.orelse)  # field == 'handlers', an `else:` needs a handler before it
 
 
 # ......................................................................................................................
